@@ -25,6 +25,11 @@ CLAIMED = {
    note="Translator harness/extract.py trusted to print what the live functions return (purity smoke-checked by evaluating twice in opposite orders); ids also exercised through the real reactors' dicts. 9 known collisions on supported snapshot versions are listed in known_findings.json.",
    technique="total tabulation by translator + Lean 4 kernel decision (decide +kernel) + generic Lean proof",
    design="5/C06"),
+ 'C15': dict(
+   text="Lean theorems for every packet list, every cut offset k and every segmentation of the first k bytes (also through any cipher pair): the reader delivers exactly the packets whose frames lie wholly inside the prefix and then fails with end-of-stream, never a partial packet; at most 2 reads are issued after the stream is exhausted (1 except right after a bare length prefix); total reads <= bytes+2; termination by construction (total functions, fuel never the stopping reason). Correspondence/fault enumeration: real read_packet on streams cut at EVERY offset x 3 segmentations under a read budget.",
+   note="A peer that stalls without closing (blocking read) is OS behaviour outside the model. The planned bound of 1 read after EOF is false for the literal code (length prefix then EOF gives 2); proved as <= 2 with a _partial refinement.",
+   technique="Lean 4 proof (prefix theorem over the frame model, instrumented read counter) + fault enumeration at every byte offset as correspondence",
+   design="5/C15"),
  'C17': dict(
    text="Lean theorems for EVERY digest byte string: the printed string parses back (independent signed base-16 parser) to the two's-complement value, '-' iff top bit, no leading zeros, lower-case hex only, and it is the unique canonical numeral (= BigInteger.toString(16)); input order id||secret||key; a complete Lean SHA-1 anchored by kernel-checked FIPS vectors and the three published Minecraft vectors. Correspondence: real generate_verification_hash vs the Lean SHA-1+formatter.",
    note="hashlib.sha1, str.encode, int.from_bytes/format are compared against the Lean implementation, not proved.",
@@ -40,6 +45,11 @@ CLAIMED = {
    note="HTTP encoding is requests'; JSON member values restricted to strings/absent in the model; the stand-in serves no body on 204.",
    technique="Lean 4 proof (case analysis over operations/replies) + correspondence via HTTP stand-in",
    design="5/C19"),
+ 'C20': dict(
+   text="Lean theorems for all histories/inputs: player-list replay = independent reference replay (add overwrites, unknown update/remove are no-ops, order semantics of dict), map patch pixel i lands at offset+(i mod w, i div w) and nothing else changes, position update adds/sets per flag and wraps yaw/pitch into [0,360) over exact rationals, flag-name printing parses back (loop invariant; for ANY enum; every library flag enum x 0..255 decided in the kernel over a table regenerated from the live classes), record ==/hash/!= laws, component-wise type-preserving vector arithmetic, alias read-back. Correspondence: live tracker objects vs model on histories; laws checked on live objects.",
+   note="Float rounding is outside the exact-rational model: the one-ulp edge -1e-20 % 360 == 360.0 is listed as a known finding. Record/vector/alias laws are tied by oracle checks on live objects (no driver command).",
+   technique="Lean 4 proof (folds/invariants) + kernel decision over tabulated enums + correspondence",
+   design="5/C20"),
 }
 
 def main():
